@@ -42,7 +42,7 @@ def main():
     j = 4
     if args[:1] == ['-j']:
         j = int(args[1]); args = args[2:]
-    ids = args or sorted(os.listdir(os.path.join(VERIF, 'seeded')))
+    ids = args or sorted(d for d in os.listdir(os.path.join(VERIF, 'seeded')) if os.path.isdir(os.path.join(VERIF, 'seeded', d)))
     root = tempfile.mkdtemp(prefix='hs_seedsweep_')
     # one lane per property so that two changes of one property never run at the same time
     lanes = {}
